@@ -76,8 +76,8 @@ Proof. exact report_between_min_max. Qed.
 Print Assumptions C19_report_between_min_and_max_sample.
 
 (* ---- switched-off resource types are reported as zero ---- *)
-Theorem C19_report_zero_for_switched_off_types : forall ratio pods s node_err label annot s' ev,
-  cstep ratio pods s (OReport node_err label annot) = (s', ReportOut (Some ev)) ->
+Theorem C19_report_zero_for_switched_off_types : forall ratio pods s node_err label annot acpu amem s' ev,
+  cstep ratio pods s (OReport node_err label annot acpu amem) = (s', ReportOut (Some ev)) ->
   (has_type 1 (effective_types (c_types s) annot) = false -> fst ev = 0) /\
   (has_type 2 (effective_types (c_types s) annot) = false -> snd ev = 0).
 Proof. exact report_step_masked. Qed.
@@ -86,13 +86,40 @@ Print Assumptions C19_report_zero_for_switched_off_types.
 (* ---- every history of sampling / reporting / reconfiguration steps ---- *)
 Theorem C19_history_reports_bounded : forall ratio pods Ac Am,
   0 <= ratio <= 100 -> 0 <= Ac <= max_alloc -> 0 <= Am <= max_alloc ->
-  (forall policy, 0 <= guaranteed_cpu_request policy pods <= max_amount) ->
+  (forall policy psel, 0 <= guaranteed_cpu_request policy (pods_at pods psel) <= max_amount) ->
   forall ops, Forall (op_ok Ac Am) ops ->
   forall ev, In (ReportOut (Some ev)) (snd (crun ratio pods cinit ops)) ->
     0 <= fst ev <= Ac * ratio / 100 /\ 0 <= snd ev <= Am * ratio / 100 /\
     Ac * ratio / 100 <= Ac /\ Am * ratio / 100 <= Am.
 Proof. exact history_reports_bounded. Qed.
 Print Assumptions C19_history_reports_bounded.
+
+(* AFTER FIX /repo 21d1eba (audit W1): every report of every history is within
+   [0, ratio% of the allocatable the node has AT THAT REPORT STEP]; pods is the
+   list of pod populations of the history, each sampling step names the active one *)
+Theorem C19_history_reports_within_current_allocatable : forall ratio pods Ac Am,
+  0 <= ratio <= 100 -> 0 <= Ac <= max_alloc -> 0 <= Am <= max_alloc ->
+  (forall policy psel, 0 <= guaranteed_cpu_request policy (pods_at pods psel) <= max_amount) ->
+  forall ops, Forall (op_ok Ac Am) ops ->
+  Forall2 (fun o out =>
+             match o, out with
+             | OReport _ _ _ acpu amem, ReportOut (Some ev) =>
+                 0 <= fst ev <= acpu * ratio / 100 /\ 0 <= snd ev <= amem * ratio / 100
+             | _, _ => True
+             end) ops (snd (crun ratio pods cinit ops)).
+Proof. exact history_reports_within_current_allocatable. Qed.
+Print Assumptions C19_history_reports_within_current_allocatable.
+
+(* the cap itself: never negative, never above the computed amount, never above
+   ratio% of the current allocatable, and the identity below it *)
+Theorem C19_cap_by_current_allocatable : forall ratio acpu amem r,
+  0 <= ratio <= 100 -> 0 <= acpu <= max_alloc -> 0 <= amem <= max_alloc -> 0 <= fst r -> 0 <= snd r ->
+  let e := cap_event ratio acpu amem r in
+  0 <= fst e <= fst r /\ 0 <= snd e <= snd r /\
+  (0 < ratio -> fst e <= acpu * ratio / 100 /\ snd e <= amem * ratio / 100) /\
+  (fst r <= acpu * ratio / 100 -> fst e = fst r) /\ (snd r <= amem * ratio / 100 -> snd e = snd r).
+Proof. exact cap_event_bounds. Qed.
+Print Assumptions C19_cap_by_current_allocatable.
 
 (* ---- eviction under pressure: one event, all pod populations, all failure patterns ---- *)
 Theorem C19_evict_only_offline_noncritical : forall pods fl e c,
@@ -144,14 +171,45 @@ Print Assumptions C19_pressure_history.
    online or critical pod is still there ---- *)
 Theorem C19_cleanup_terminates_and_evicts_only_offline : forall ne pods fl,
   NoDup (map p_id pods) ->
-  exists err rounds calls s,
-    cleanup ne (pods, fl) = ClDone err rounds calls s /\
-    (forall c, In c calls ->
+  exists err rounds passes s,
+    cleanup ne (pods, fl) = ClDone err rounds passes s /\
+    (forall c, In c (flat_passes passes) ->
        exists p, In p pods /\ p_id p = fst c /\ preemptable p = true /\ critical p = false) /\
     incl (fst s) pods /\
-    (forall p, In p pods -> preemptable p = false \/ critical p = true -> In p (fst s)).
+    (forall p, In p pods -> preemptable p = false \/ critical p = true -> In p (fst s)) /\
+    (* largest request first in every pass (audit W3): the pods behind the calls
+       of a cpu pass are sorted by descending cpu request, those of a memory pass
+       by descending memory request; at most one success per pass, nothing after it *)
+    Forall (fun p => pass_sorted 1 pods (fst p) /\ pass_sorted 2 pods (snd p)) passes.
 Proof. exact cleanup_ok. Qed.
 Print Assumptions C19_cleanup_terminates_and_evicts_only_offline.
+
+(* what pass_sorted says, spelled out *)
+Theorem C19_pass_sorted_meaning : forall res pods0 calls,
+  pass_sorted res pods0 calls <->
+  (exists tried, map p_id tried = map fst calls /\
+                 StronglySorted (fun a b => req res b <= req res a) tried /\ incl tried pods0) /\
+  (length (filter (fun c => snd c) calls) <= 1)%nat /\
+  (forall pre c post, calls = pre ++ c :: post -> snd c = true -> post = []).
+Proof. exact (fun res pods0 calls => conj (fun H => H) (fun H => H)). Qed.
+Print Assumptions C19_pass_sorted_meaning.
+
+(* largest request first along EVERY sequence of pressure events (audit W5) *)
+Theorem C19_pressure_history_largest_first : forall evs pods0 pods fl, incl pods pods0 ->
+  Forall2 (fun e (oa : hout * list Z) =>
+             exists tried, map p_id tried = map fst (h_calls (fst oa)) /\
+                           StronglySorted (fun a b => req (e_res e) b <= req (e_res e) a) tried /\
+                           incl tried pods0)
+          evs (snd (hrun (pods, fl) evs)).
+Proof. exact hrun_sorted. Qed.
+Print Assumptions C19_pressure_history_largest_first.
+
+(* with unique pod names THE pod of a call's name is offline and non-critical (audit W8) *)
+Theorem C19_evict_only_offline_noncritical_unique : forall pods fl e c,
+  NoDup (map p_id pods) -> In c (h_calls (snd (handle (pods, fl) e))) ->
+  forall p, In p pods -> p_id p = fst c -> preemptable p = true /\ critical p = false.
+Proof. exact handle_only_offline_unique. Qed.
+Print Assumptions C19_evict_only_offline_noncritical_unique.
 
 (* ---- the sort used for the victims: a sorted permutation of the offline pods ---- *)
 Theorem C19_victims_sorted_permutation : forall res pods,
@@ -160,7 +218,8 @@ Theorem C19_victims_sorted_permutation : forall res pods,
 Proof. exact (fun res pods => conj (victims_perm res pods) (victims_sorted res pods)). Qed.
 Print Assumptions C19_victims_sorted_permutation.
 
-(* ---- the executable laws speak about the same predicates ---- *)
+(* ---- Prop-level meaning of the executable laws (soundness lemmas; law_report,
+   law_history and the completeness direction are not proved) ---- *)
 Theorem C19_law_sample_accepts_model : forall ratio policy pods acpu amem ucpu umem,
   law_sample ratio policy pods acpu amem ucpu umem
     (sample_pair ratio acpu amem (guaranteed_cpu_request policy pods) ucpu umem) = true.
@@ -182,6 +241,37 @@ Theorem C19_law_evict_sound : forall res pods calls after,
 Proof. exact law_evict_sound. Qed.
 Print Assumptions C19_law_evict_sound.
 
+Theorem C19_law_evict_sound_order : forall res pods calls after,
+  nodupb (map p_id pods) = true -> law_evict res pods calls after = true ->
+  StronglySorted (fun a b => b <= a) (map (call_req res pods) calls) /\
+  (forall pre c post, calls = pre ++ c :: post -> snd c = true -> post = []) /\
+  after = map p_id (filter (fun p => negb (zmem (p_id p) (succeeded calls))) pods).
+Proof. exact law_evict_sound_order. Qed.
+Print Assumptions C19_law_evict_sound_order.
+
+Theorem C19_law_cleanup_sound : forall pods passes after,
+  nodupb (map p_id pods) = true -> law_cleanup pods passes after = true ->
+  forall c, In c (flat_passes passes) ->
+    exists p, In p pods /\ p_id p = fst c /\ preemptable p = true /\ critical p = false.
+Proof. exact law_cleanup_sound. Qed.
+Print Assumptions C19_law_cleanup_sound.
+
+Theorem C19_law_cleanup_sound_order : forall pods passes after,
+  nodupb (map p_id pods) = true -> law_cleanup pods passes after = true ->
+  Forall (fun p => StronglySorted (fun a b => b <= a) (map (call_req 1 pods) (fst p)) /\
+                   StronglySorted (fun a b => b <= a) (map (call_req 2 pods) (snd p)) /\
+                   (forall pre c post, fst p = pre ++ c :: post -> snd c = true -> post = []) /\
+                   (forall pre c post, snd p = pre ++ c :: post -> snd c = true -> post = [])) passes.
+Proof. exact law_cleanup_sound_order. Qed.
+Print Assumptions C19_law_cleanup_sound_order.
+
+Theorem C19_law_event_current_sound : forall ratio acpu amem ev,
+  0 <= ratio <= 100 -> 0 <= acpu <= max_alloc -> 0 <= amem <= max_alloc ->
+  law_event_current ratio acpu amem ev = true ->
+  fst ev <= acpu * ratio / 100 /\ snd ev <= amem * ratio / 100.
+Proof. exact law_event_current_sound. Qed.
+Print Assumptions C19_law_event_current_sound.
+
 (* ==== the value ON THE NODE OBJECT (reporter, Cleanup, whole pipeline) ====
    The reporter writes the event unrounded into the extended resources
    kubernetes.io/batch-cpu / batch-memory of Status.Allocatable and
@@ -197,7 +287,7 @@ Print Assumptions C19_node_write_is_exact.
    [0, Rmax% of the largest allocatable], Rmax the largest ratio used *)
 Theorem C19_node_bounded_after_every_prefix : forall pods Rmax Ac Am,
   0 <= Rmax <= 100 -> 0 <= Ac <= max_alloc -> 0 <= Am <= max_alloc ->
-  (forall policy, 0 <= guaranteed_cpu_request policy pods <= max_amount) ->
+  (forall policy psel, 0 <= guaranteed_cpu_request policy (pods_at pods psel) <= max_amount) ->
   forall ratio n ops,
   0 <= ratio <= Rmax -> 0 <= n_acpu n <= Ac -> 0 <= n_amem n <= Am ->
   node_bounded Rmax Ac Am n -> Forall (pop_ok Rmax Ac Am) ops ->
@@ -210,7 +300,7 @@ Print Assumptions C19_node_bounded_after_every_prefix.
    apply after any prefix *)
 Theorem C19_pipeline_invariant_step : forall pods Rmax Ac Am,
   0 <= Rmax <= 100 -> 0 <= Ac <= max_alloc -> 0 <= Am <= max_alloc ->
-  (forall policy, 0 <= guaranteed_cpu_request policy pods <= max_amount) ->
+  (forall policy psel, 0 <= guaranteed_cpu_request policy (pods_at pods psel) <= max_amount) ->
   forall s o, pinv Rmax Ac Am s -> pop_ok Rmax Ac Am o -> pinv Rmax Ac Am (fst (pstep pods s o)).
 Proof. exact pstep_inv. Qed.
 Print Assumptions C19_pipeline_invariant_step.
@@ -223,13 +313,23 @@ Theorem C19_event_at_most_largest_recent_sample : forall pods Rmax Ac Am,
 Proof. exact pstep_event_le_max_sample. Qed.
 Print Assumptions C19_event_at_most_largest_recent_sample.
 
+(* AFTER FIX /repo 21d1eba (audit W1): in every reachable pipeline state every
+   emitted event is within [0, ratio% of the node's CURRENT allocatable] *)
+Theorem C19_event_within_current_allocatable : forall pods Rmax Ac Am,
+  0 <= Rmax <= 100 -> 0 <= Ac <= max_alloc -> 0 <= Am <= max_alloc ->
+  (forall policy psel, 0 <= guaranteed_cpu_request policy (pods_at pods psel) <= max_amount) ->
+  forall s fail ev, pinv Rmax Ac Am s -> o_ev (snd (pstep pods s (PReport fail))) = Some ev ->
+  0 <= fst ev <= n_acpu (ps_n s) * ps_ratio s / 100 /\ 0 <= snd ev <= n_amem (ps_n s) * ps_ratio s / 100.
+Proof. exact pstep_event_current_allocatable. Qed.
+Print Assumptions C19_event_within_current_allocatable.
+
 (* a report handled (active handler, over-subscription node, no API failure):
    the node now shows exactly the event, or -- never on a forced re-sync -- it
    was left alone because the event is within 10% of what it shows; then the
    node shows at most 10/9 of the event *)
 Theorem C19_node_after_handled_report : forall pods Rmax Ac Am,
   0 <= Rmax <= 100 -> 0 <= Ac <= max_alloc -> 0 <= Am <= max_alloc ->
-  (forall policy, 0 <= guaranteed_cpu_request policy pods <= max_amount) ->
+  (forall policy psel, 0 <= guaranteed_cpu_request policy (pods_at pods psel) <= max_amount) ->
   forall s, pinv Rmax Ac Am s ->
   o_handled (snd (pstep pods s (PReport 0))) = true -> label_on (n_label (ps_n s)) = true ->
   let s' := fst (pstep pods s (PReport 0)) in
@@ -256,7 +356,7 @@ Print Assumptions C19_node_forced_resync.
    threshold never keeps a positive amount against a zero event) *)
 Theorem C19_node_zero_for_switched_off_types : forall pods Rmax Ac Am,
   0 <= Rmax <= 100 -> 0 <= Ac <= max_alloc -> 0 <= Am <= max_alloc ->
-  (forall policy, 0 <= guaranteed_cpu_request policy pods <= max_amount) ->
+  (forall policy psel, 0 <= guaranteed_cpu_request policy (pods_at pods psel) <= max_amount) ->
   forall s, pinv Rmax Ac Am s ->
   o_handled (snd (pstep pods s (PReport 0))) = true -> label_on (n_label (ps_n s)) = true ->
   let ty := effective_types (c_types (ps_c s)) (n_annot (ps_n s)) in
@@ -292,6 +392,19 @@ Theorem C19_unhandled_report_changes_nothing : forall pods s fail,
 Proof. exact pstep_unhandled. Qed.
 Print Assumptions C19_unhandled_report_changes_nothing.
 
+(* the negative side (audit W2): while the handler is inactive NO sequence of
+   sampling / report / type-configuration / allocatable / annotation steps changes
+   what the node shows; a stale amount, also of a switched-off type, stays indefinitely *)
+Theorem C19_node_stale_while_handler_inactive : forall pods ops s,
+  Forall (fun o => match o with
+                   | PSample _ _ _ _ _ _ | PReport _ | PTypes _ _ | PSetAlloc _ _ | PSetAnnot _ => True
+                   | _ => False end) ops ->
+  r_active (ps_r s) = false ->
+  n_xcpu (ps_n (fst (prun pods s ops))) = n_xcpu (ps_n s) /\
+  n_xmem (ps_n (fst (prun pods s ops))) = n_xmem (ps_n s).
+Proof. exact prun_stale_while_inactive. Qed.
+Print Assumptions C19_node_stale_while_handler_inactive.
+
 (* over-subscription switched off in the configuration (Cleanup succeeded):
    nothing is reported any more, the node is no over-subscription node, the
    handler is inactive *)
@@ -320,6 +433,36 @@ Theorem C19_node_strict_refuted :
 Proof. exact node_strict_refuted. Qed.
 Print Assumptions C19_node_strict_refuted.
 
+(* ---- Prop-level meaning of the laws on the node object ---- *)
+Theorem C19_law_node_bounds_sound : forall rmax amaxc amaxm k xc xm,
+  0 <= rmax <= 100 -> 0 <= amaxc <= rep_max -> 0 <= amaxm <= rep_max ->
+  law_node_bounds rmax amaxc amaxm k xc xm = true ->
+  k = true /\
+  match xc with None => True | Some x => 0 <= x /\ x * 100 <= amaxc * rmax end /\
+  match xm with None => True | Some x => 0 <= x /\ x * 100 <= amaxm * rmax end.
+Proof. exact law_node_bounds_sound. Qed.
+Print Assumptions C19_law_node_bounds_sound.
+
+Theorem C19_law_report_step_sound : forall forced bc bm ac am ev,
+  0 <= oz bc <= rep_max -> 0 <= oz bm <= rep_max -> 0 <= fst ev <= rep_max -> 0 <= snd ev <= rep_max ->
+  law_report_step forced bc bm ac am ev = true ->
+  (oz ac = fst ev /\ oz am = snd ev) \/
+  (ac = bc /\ am = bm /\ forced = false /\ close1 (oz bc) (fst ev) = true /\ close1 (oz bm) (snd ev) = true).
+Proof. exact law_report_step_sound. Qed.
+Print Assumptions C19_law_report_step_sound.
+
+Theorem C19_law_switched_off_sound : forall cfg annot ac am,
+  law_switched_off cfg annot ac am = true ->
+  (has_type 1 (effective_types cfg annot) = false -> oz ac = 0) /\
+  (has_type 2 (effective_types cfg annot) = false -> oz am = 0).
+Proof. exact law_switched_off_sound. Qed.
+Print Assumptions C19_law_switched_off_sound.
+
+Theorem C19_law_cleanup_node_sound : forall al ac am,
+  law_cleanup_node al ac am = true -> label_on al = false /\ oz ac = 0 /\ oz am = 0.
+Proof. exact law_cleanup_node_sound. Qed.
+Print Assumptions C19_law_cleanup_node_sound.
+
 (* ---- non-vacuity ---- *)
 Definition ex_pods : list pod :=
   [ mkPod 1 4 0 None 1 500 1000 500 0 false;            (* offline *)
@@ -331,21 +474,23 @@ Definition ex_pods : list pod :=
 (* a history inside the stated range: hypotheses of C19_history_reports_bounded
    hold and a non-zero report comes out; usage above total gives a zero sample *)
 Example C19_nonvacuous_history :
-  let ops := [ORefresh 3 [1; 2]; OSample false 1 8000 16384 false 2 1000 4096;
-              OSample false 1 8000 16384 false 2 9000 20000; OSample false 1 8000 16384 false 1 3000 0;
-              OReport false 1 None; OReport false 1 (Some [1])] in
+  let ops := [ORefresh 3 [1; 2]; OSample false 1 8000 16384 false 2 1000 4096 0;
+              OSample false 1 8000 16384 false 2 9000 20000 0; OSample false 1 8000 16384 false 1 3000 0 1;
+              OReport false 1 None 8000 16384; OReport false 1 (Some [1]) 8000 16384;
+              OReport false 1 None 3000 16384] in   (* allocatable shrunk: capped at 60% of 3000 *)
   Forall (op_ok 8000 16384) ops /\
-  (forall policy, 0 <= guaranteed_cpu_request policy ex_pods <= max_amount) /\
-  snd (crun 60 ex_pods cinit ops) =
+  (forall policy psel, 0 <= guaranteed_cpu_request policy (pods_at [ex_pods; []] psel) <= max_amount) /\
+  snd (crun 60 [ex_pods; []] cinit ops) =
     [RefreshOut false; SampleOut 0 [(3000, 7372)]; SampleOut 0 [(3000, 7372); (0, 0)];
      SampleOut 1 [(3000, 7372); (0, 0); (3000, 9830)];
-     ReportOut (Some (2142, 6670)); ReportOut (Some (2142, 0))].
+     ReportOut (Some (2142, 6670)); ReportOut (Some (2142, 0)); ReportOut (Some (1800, 6670))].
 Proof.
   split; [|split].
   - repeat (apply Forall_cons; [cbn; unfold max_amount; try lia; auto|]); apply Forall_nil.
-  - intros policy. apply guaranteed_request_range.
-    + repeat (apply Forall_cons; [cbn; unfold max_alloc; lia|]); apply Forall_nil.
-    + cbn. lia.
+  - intros policy psel. apply guaranteed_request_range.
+    + unfold pods_at. destruct (Z.to_nat psel) as [|[|[|k]]]; cbn;
+        repeat (apply Forall_cons; [cbn; unfold max_alloc; lia|]); apply Forall_nil.
+    + unfold pods_at. destruct (Z.to_nat psel) as [|[|[|k]]]; cbn; lia.
   - vm_compute. reflexivity.
 Qed.
 
@@ -373,8 +518,8 @@ Example C19_nonvacuous_pipeline :
   pinv 60 1000 1000 (pinit 60 n0) /\
   map (fun on : pout * node => (o_handled (fst on), n_xcpu (snd on), n_xmem (snd on)))
       (snd (prun [] (pinit 60 n0)
-             [PTypes 3 [1; 2]; PReporterCfg true true 0; PSample false false 1 0 0; PReport 0;
-              PSample false false 1 50 50; PReport 0; PTypes 3 [1]; PReport 0;
+             [PTypes 3 [1; 2]; PReporterCfg true true 0; PSample false false 1 0 0 0; PReport 0;
+              PSample false false 1 50 50 0; PReport 0; PTypes 3 [1]; PReport 0;
               PReporterCfg false true 0])) =
     [(false, None, None); (false, None, None); (false, None, None); (true, Some 600, Some 600);
      (false, Some 600, Some 600); (true, Some 600, Some 600); (false, Some 600, Some 600);
